@@ -9,6 +9,7 @@ Line protocol for C07 (see harness/rulehash/c07.go, c07e2e.go; token syntax in M
   perm   <ctx+target tokens>   -> hex sha1(ruleSer) of the encoding as given (the harness feeds permuted encodings)
   rehash <ctx+target tokens>   -> post-build rule hash before / after UnprefixedHashes()
   e2e    <seed>                -> ok <number of targets of the generated repository>
+  e2ecfg <seed> <ndefs 2|3> <slow 0|1> <joint 0|1>  -> ok  (harness/rulehash/c07cfg.go)
 -/
 open PlzVerif PlzVerif.RuleHash PlzVerif.Proto PlzVerif.RuleProto
 
@@ -20,6 +21,13 @@ def step (line : String) : String :=
     -- end-to-end determinism is decided on the real binary alone; the model only knows the repository's size
     match seed.toNat? with
     | some n => if toString n = seed then s!"ok {(3 + n % 4) * 4}" else "bad-op"
+    | none => "bad-op"
+  | ["e2ecfg", seed, nd, slow, joint] =>
+    -- package-level independence (Props/C07.lean C07_partial_parse_order) is decided on the real binary alone
+    match seed.toNat? with
+    | some n =>
+      if toString n = seed && (nd = "2" || nd = "3") && (slow = "0" || slow = "1") && (joint = "0" || joint = "1")
+      then "ok" else "bad-op"
     | none => "bad-op"
   | op :: toks =>
     if op = "perm" || op = "rehash" then
